@@ -501,11 +501,18 @@ func (w *Writer) finishSection() error {
 				panic("fail on fresh block")
 			}
 		}
+		// The last block of this level.
+		if err := w.flushBlock(); err != nil {
+			return err
+		}
+		if len(w.index) >= len(idx) {
+			// Every index entry fills a block of its own, so another
+			// level would not be smaller. The reader scans a
+			// multi-block top level linearly.
+			break
+		}
 	}
 	w.index = nil
-	if err := w.flushBlock(); err != nil {
-		return err
-	}
 
 	blockStats := w.getBlockStats(typ)
 	blockStats.IndexBlocks = w.Stats.idxStats.Blocks - before
